@@ -8,13 +8,13 @@ tails, duplicates and equal-hash subtrees are the norm rather than measure zero.
 """
 import random
 
-SIZES = {'u8': 1, 'u16': 2, 'u32': 4, 'u64': 8, 'u128': 16, 'u256': 32, 'h256': 32, 'pair': 16, 'var': None, 'nl': None, 'fu64': 8}
+SIZES = {'u8': 1, 'u16': 2, 'u32': 4, 'u64': 8, 'u128': 16, 'u256': 32, 'h256': 32, 'pair': 16, 'quad': 32, 'var': None, 'nl': None, 'fu64': 8}
 PF = {'u8': 32, 'u16': 16, 'u32': 8, 'u64': 4, 'u128': 2, 'u256': 1, 'fu64': 4}
 USIZE_MAX = 2 ** 64 - 1
 SMALL_NS = [1, 2, 3, 4, 5, 7, 8, 9, 16, 17, 32, 33, 64]
 ALL_NS = SMALL_NS + [1024, 2 ** 40]
 DEEP_NS = [2 ** 48, 2 ** 49, 2 ** 63]
-KINDS = [k for k in SIZES if k != 'fu64']      # fu64 (fault injection) is used by the `fault` family only
+KINDS = [k for k in SIZES if k not in ('fu64', 'quad')]      # quad: see extra_kind()      # fu64 (fault injection) is used by the `fault` family only
 MAPS = ['max', 'vec', 'bt']
 
 
@@ -1151,6 +1151,39 @@ def generate(seed, families, count):
         h = FAMILIES[fam](cfg, sub)
         epilogue(h)
         out.append(h)
+    return out
+
+
+def extra_kind(seed, fams, count, kind='quad'):
+    """histories of the given families for an element kind that is kept out of the main random stream (KINDS):
+    `quad` = a fixed-size container of exactly 32 bytes (one chunk wide, like Hash256, but with four field chunks)."""
+    rng = random.Random(seed ^ 0x9AD)
+    fams = [f for f in fams if f in FAMILIES and f not in ('deep', 'fault')]
+    out = []
+    for j in range(count if fams else 0):
+        fam = fams[j % len(fams)]
+        n = 2 ** 40 if fam == 'big' else rng.choice(SMALL_NS + [1024])
+        h = FAMILIES[fam](Cfg(kind, n, rng.choice(MAPS)), random.Random(rng.getrandbits(64)))
+        epilogue(h)
+        out.append(h)
+    return out
+
+
+def zero_capacity(seed, fams=('capacity', 'invalid_args', 'crud', 'bulk', 'codec', 'versions', 'suffix'), reps=2):
+    """capacity N = 0 (`List<T, U0>`, `Vector<T, U0>`): legal types whose only value is the empty collection; every
+    constructor, decoder and mutator must still answer with a value or an error. Outside the theorems' hypothesis
+    `capacity_ok` (1 <= N): covered by the correspondence and the oracles only."""
+    rng = random.Random(seed ^ 0x5EED0)
+    out = []
+    for fam in fams:
+        if fam not in FAMILIES:
+            continue
+        for kind in ('u8', 'u64', 'h256'):
+            for m in MAPS:
+                for _ in range(reps):
+                    h = FAMILIES[fam](Cfg(kind, 0, m), random.Random(rng.getrandbits(64)))
+                    epilogue(h)
+                    out.append(h)
     return out
 
 
